@@ -34,4 +34,22 @@ PROPS = {
         "rule": "ontologies with HP:1 and HP:118 and extra children of both (0..n top-level branches), terms below several categories and below both a modifier and a phenotype branch, 1/8 of the cases missing HP:1 and 1/8 missing HP:118 (build must fail with an error); compared: categories()/modifier() groups, per-term is_modifier and categories(), build result; independent defaults oracle; non-trivial = both roots present and at least two top-level branches",
         "assumptions": ["'descends from' is membership in the ancestor group, which C01 proves to be the transitive closure"],
     },
+    "C13": {
+        "rule": "ontologies of 3..35 terms loaded through the binary format (v3, 1/10 v2) with extra children of HP:1 (modifier roots) and HP:118 (categories), obsolete flags and replacements (resolving, colliding with other terms, not resolving, none) and gene/omim/orpha records; ALL subsets for ontologies of <= 5 terms, else 20 (thorough 50) subsets: empty, full, singleton, all obsolete, term + all its ancestors, replaced terms + their replacements, terms around modifier roots, random densities, constructor input shuffled with duplicates; per subset every query (len/is_empty/contains over a universe, iter, get(i), gene/omim/orpha unions, categories, information_content) and every transformation followed by the resolving views, random chains of 2-5 transformations, and the harness oracle (`oracle set`: recomputation from parent_ids BFS, flags, replacement_id, modifier/category roots, per-term record ids; in-place = copy; receiver unchanged); 1/4 of the cases add a set with a member that is not a term (every looking-up operation must panic); distinct = distinct op lists; non-trivial = some subset holds an ancestor together with a descendant and the ontology has an obsolete or replaced term",
+        "assumptions": [
+            "a set is observed through len/is_empty/contains over a universe (ontology ids, all replacement ids, the constructor ids, border ids) because iter()/get() resolve ids and panic on a replacement id that is not a term; the model prints the id vector",
+            "HashSet/HashMap results (record id unions, category counts) are compared sorted by id",
+            "'descends from' is read through the cached all_parents of the members (C01 ties that cache to the transitive closure)",
+        ],
+        "partial": "C13_ic states the result as the (count, total) pairs passed to C03's icCalc plus the definition of icValue for every Num instance; the real-number identity -ln(|union|/N) >= 0 is C03's theorem, not restated here. For a set with a member that is not a term the panic of every whole-set operation is a theorem (C13_panic_without_member); for child_nodes (whose inner `all` short-circuits) it is modelled and compared only.",
+    },
+    "C18": {
+        "rule": "pairs (old, new) of ontologies of 3..35 terms loaded through the binary format (v3, 1/8 v2, the two sides independently) with obsolete flags, replacements (resolving / not resolving / none) and gene/omim/orpha records; the case index cycles through 17 edit kinds: none, rename_term, add_parent (kept acyclic), remove_parent, flip_obsolete, change_replacement, add_link, remove_link, add_record, remove_record, rename_record (gene or disease), add_term, remove_term (leaf), version, several (2-4 random edits), many (5-15), dangling_parent (malformed: a parent id that is not a term; changed_hpo_terms must panic on both sides); per pair: compare old new, compare new old (swap), compare old old (self), the binary round trip rtbytes old -> slot 2 with `same` and compare old rt / compare rt new, and the harness oracle (`oracle compare`: all set differences and deltas recomputed from per-item accessors of the two ontologies, duplicates and Some(empty) rejected, swap checked); every accessor of Comparison (incl. Display), HpoTermDelta and AnnotationDelta is printed, lists sorted by id; distinct = distinct op lists; non-trivial = at least one edit was applied",
+        "assumptions": [
+            "'replacement' is read as the code has it: replaced_by().map(id), the replacement id resolved in the term's own ontology; two different raw replacement ids that both do not resolve compare as unchanged (stat raw_replacement_differs_resolved_equal counts such terms; the raw ids are not an observable of Comparison)",
+            "Vec results built from HashMap/HashSet iteration are compared sorted by id",
+            "rtbytes is the identity in the model: generated only for ontologies loaded by fload (names <= 255 bytes, replacement 0 already read as none, default categories/modifier), where C07 documents as_bytes/from_bytes to preserve every observable; `same` checks that on the implementation in every case",
+        ],
+        "partial": "the round-trip clause ('comparing with the binary round-trip reports nothing') is established by correspondence (rtbytes + same + compare in every case) together with C18_self; a theorem decode(encode o) = o belongs to C07's binary model, which this revision does not contain. The panic of changed_hpo_terms on a dangling parent id is modelled and compared, theorems assume ParentsResolve.",
+    },
 }
